@@ -3,7 +3,7 @@
    linear work — is carried by the sanitizer / guard-page / valgrind / callgrind runs of the C06 check on the real code. *)
 From Coq Require Import List NArith ZArith Bool.
 From Coq Require Import Strings.Byte.
-Require Import Bytes Codes Local Local6531 Domain Ip Special Email Api ApiProofs TldProofs EnumTie SafetyProofs.
+Require Import Bytes Codes Local Local6531 Domain Ip Special Email Api ApiProofs TldProofs EnumTie SafetyProofs LocalA DomainA.
 Require Gen.GenEnums.
 Import ListNotations.
 
@@ -32,6 +32,20 @@ Theorem C06_allocations_balanced :
   forall idn g tbl s o, balanced s -> op_ok s o -> balanced (fst (step idn g tbl s o)).
 Proof. exact balanced_step. Qed.
 Print Assumptions C06_allocations_balanced.
+
+(* layer A: the three ASCII local-part scanners and the host-name scanner written over a bounds-checked buffer with the
+   C code's own index arithmetic (cp[-1], cp[1], cp[2], cp + 2 <= end, start[end - start - 1]).  For every input, every
+   mode and whatever follows the end pointer, the access model never reads outside the buffer, never underflows cp[-1],
+   never runs out of fuel, and returns exactly the functional model's code.  With buf = s ++ [NUL] (nothing after the end
+   pointer but the terminator) this says: no byte before the first one and none after the terminator is read. *)
+Theorem C06_local_scanners_access_model :
+  forall m s rest, localA m (s ++ rest ++ [NUL]) (length s) = RetA (local m s rest).
+Proof. exact localA_refines. Qed.
+Print Assumptions C06_local_scanners_access_model.
+Theorem C06_domain_scanner_access_model :
+  forall us s rest, ascii_domainA us (s ++ rest ++ [NUL]) (length s) = RetA (ascii_domain us s rest).
+Proof. exact ascii_domainA_refines. Qed.
+Print Assumptions C06_domain_scanner_access_model.
 
 (* look-ahead discipline: whatever lies beyond the end pointer can influence a scanner only through the byte at [end] *)
 Theorem C06_local_lookahead :
